@@ -82,8 +82,8 @@ def gen_record(rng, tag, cls=None, status=None, profile=None, tame=False):
         op = {"exec": "exec", "link": "link"}.get(cls) or rng.choice([o for o in FILE_OPS if o not in ("exec", "link")])
         mask = {"exec": "x", "link": "l"}.get(cls) or rng.choice([m for m in MASKS if m not in ("x", "l")])
         f += [("operation", op)]
-        if rng.random() < 0.7:
-            f.append(("class", "file"))
+        if rng.random() < 0.7 or op == "chown":
+            f.append(("class", "file"))      # (without class= the tool maps a record by its operation; chown is not in that table)
         if rng.random() < 0.15:
             f.append(("info", rng.choice(["Failed name lookup - disconnected path", "Failed name lookup - deleted entry"])))
             f.append(("error", rng.choice(["-13", "-2"])))
@@ -141,9 +141,9 @@ def gen_record(rng, tag, cls=None, status=None, profile=None, tame=False):
             f.append(("srcname", name.rsplit("/", 1)[0] + "/old" + ts_ + "/"))
     elif cls == "mqueue":
         f += [("operation", rng.choice(["mq_open", "mq_unlink"])), ("class", rng.choice(["posix_mqueue", "sysv_mqueue"])), ("profile", profile), ("name", "/q" + ts_), ("pid", pid), ("comm", comm),
-              ("requested", rng.choice(["create", "read", "write open"])), ("denied", "create")]
+              ("requested", "create"), ("denied", "create")]
     elif cls == "io_uring":
-        f += [("operation", "uring_sqpoll"), ("class", "io_uring"), ("profile", profile), ("pid", pid), ("comm", comm), ("requested", rng.choice(["sqpoll", "override_creds"])), ("denied", "sqpoll")]
+        f += [("operation", "uring_sqpoll"), ("class", "io_uring"), ("profile", profile), ("pid", pid), ("comm", comm), ] + (lambda a: [("requested", a), ("denied", a)])(rng.choice(["sqpoll", "override_creds"]))
     elif cls == "userns":
         f += [("operation", "userns_create"), ("class", "namespace"), ("info", "Userns create restricted - failed to find unprivileged_userns profile"), ("error", "-13"),
               ("profile", profile), ("pid", pid), ("comm", comm), ("requested", "userns_create"), ("denied", "userns_create")]
